@@ -17,6 +17,10 @@ CLAIMS = {
   text="second sentence of the property (a recycled frame is never observable): freeEnv, newEnv, NewEnv, FreeEnv, freeEnv4Func, MarkUsedByClosure are verified against a representation invariant of Run.Pool (poolOK: pooled frames are distinct, not captured by a closure, no escaped slot address, detached) - a frame marked UsedByClosure is never pooled and keeps its slots; a frame whose slot address was taken gives up its Ints array before pooling; newEnv hands out a frame that is no longer in the pool; memory safety of the pool indices",
   note="trusted: go/ssa front end, SMT solvers, heap model (type-based field arrays). Not covered: first sentence (call results equal compiled Go: call*.go / func*ret*.go specialisations), that each function-creating closure marks its frame and frees it exactly once (typestate over func0ret0..), newEnv4Func, Var.Address setting IntAddressTaken",
   ref="DESIGN.md section 5 C06"),
+ "C12": dict(
+  text="every-exit contracts on the executor: restore, pushDefer/popDefer, applyDebugOp/applyAsyncSignal, the function literal that runs one deferred call (reExecWithFlags$1), reExecWithFlags (all 109 normal and panicking exits, deferred calls registered in loops included), exec$1, execWithFlags$1, Interp.RunExpr/DebugExpr and prepareEnv are proved to leave ExecFlags.IsDefer/StartDefer, DeferOfFun, Interrupt and CurrEnv as found and to start each evaluation with no pending signal and debugger mode off - on a normal return and on a panic raised at any call, in a deferred call or while another panic unwinds; plus syntactic writers scans (no other function of package fast can write those Run fields)",
+  note="trusted: assumed contract of every Stmt value (returns a non-nil frame of the same Run), assumed frames of Expr.ConstTo/DefaultType, DebugOpContinue is never reassigned, Signals.IsEmpty model, go/ssa front end, SMT solvers; the induction over executor nesting that combines the contracts is a paper step; PanicFun/Panic/InstallDefer not covered; writers scan limited to package fast",
+  ref="DESIGN.md section 5 C12"),
  "C14": dict(
   text="second sentence of the property (slot storage of globals never relocates after an address was taken, however many declarations follow): CompBinds.NewBind, Comp.NewBind (slot counter never exceeds IntBindMax, complex128 takes two slots), Interp.prepareEnv (never reallocates Env.Ints once IntAddressTaken, never raises the internal error, keeps all slots) and a call-site assertion in Interp.CompileAst (IntBindMax is refreshed before compiling) are verified for all inputs; lemma replRound composes them over one REPL round",
   note="trusted: go/ssa front end, SMT solvers; assumed: Comp.Compile reaches NewBind only through Comp.NewBind and leaves IntBindMax alone (paper step tying the contracts to lemma replRound). Not covered: first sentence (each evaluation sees earlier effects; results equal compiled Go) - whole-program",
